@@ -870,7 +870,7 @@ func filterRandom(in *Value, param *Value) (*Value, *Error) {
 	return in.Index(i), nil
 }
 
-var reTag = regexp.MustCompile(`^[a-zA-Z]$`)
+var reTag = regexp.MustCompile(`^[a-zA-Z][a-zA-Z0-9]*$`)
 
 func filterRemovetags(in *Value, param *Value) (*Value, *Error) {
 	s := in.String()
